@@ -93,3 +93,38 @@ def U_proto(buf=1):
     return Unit('proto_b%d' % buf, 'proto_shim.cpp', defines=['WENCRY_VERIF_BUF_SZ=%d' % buf], clang_extra=['-fno-exceptions', '-fno-inline'],
                 extra_srcs=PROTO_SRCS, ir2c_args=PROTO_SCHED + PROTO_REPL + ['--roots', PROTO_ROOTS])
 PROTO_ENVS = ['env_heap.c', 'env_cxx.c', 'env_io.c', 'env_sched_proto.c']
+
+PROTO_STR = ['--replace', '_ZNSt7__cxx119to_stringEj=stub_to_string', '--replace', '_ZStplIcSt11char_traitsIcESaIcEENSt7__cxx1112basic_stringIT_T0_T1_EEPKS5_OS8_=stub_strplus']
+L_CMP = ['--replace', '_ZNK10bufferctrl8cmpstateE10bufstate_t=o_cmpstate']
+L_GET = ['--replace', '_ZN8iobuffer9get_entryEv=o_get_entry']
+L_SETUPD = ['--replace', '_ZN10bufferctrl10set_updateEv=o_set_update']
+L_WAITRDY = ['--replace', '_ZN10bufferctrl10wait_readyEv=o_wait_ready']
+L_WAITUPD = ['--replace', '_ZN10bufferctrl11wait_updateEv=o_wait_update']
+L_SETRDY = ['--replace', '_ZN10bufferctrl9set_readyEb=o_set_ready']
+L_HASLIVE = ['--replace', '_ZN10bufferctrl7hasliveEv=o_haslive']
+L_LOAD = ['--replace', '_ZN8iobuffer11load_bufferEP8_IO_FILEb=o_load', '--replace', '_ZN8iobuffer13export_bufferEP8_IO_FILEb=o_export',
+          '--replace', '_ZNKSt8functionIFvNSt7__cxx1112basic_stringIcSt11char_traitsIcESaIcEEEmEEclES5_m=o_printload']
+L_REQ = ['--replace', '_ZN11buffergroup20require_buffer_entryEh=o_require']
+L_BUFUPD = ['--replace', '_ZN11buffergroup13buffer_updateERKSt8functionIFvNSt7__cxx1112basic_stringIcSt11char_traitsIcESaIcEEEmEE=o_buffer_update']
+L_TURNITER = ['--replace', '_ZN11buffergroup9turn_iterEv=o_turn_iter']
+REFINE_ROOTS = 'vf_ctrl_new,vf_ctrl_set_update,vf_ctrl_set_ready,vf_ctrl_wait_ready,vf_ctrl_wait_update,vf_ctrl_cmpstate,vf_haslive,vf_ctrl_state,vf_ctrl_set_state,vf_ctrl_state_addr,vf_ctrl_mutex,vf_ctrl_cv_ready,vf_ctrl_cv_update,vf_live_get,vf_live_set,vf_live_addr,vf_iob_new,vf_iob_get_entry,vf_iob_block,vf_iob_set,vf_iob_now,vf_iob_total,vf_proto_setup,vf_req,vf_bg_buffer_update,vf_bg_turn_iter,vf_bg_set_turn,vf_bg_set_over,vf_bg_over,vf_bg_turn,vf_bg_ctrl,vf_bg_buflst,vf_ctrl_size,vf_iobuffer_size,vf_buf_sz,vf_proto_io,vf_proto_worker,vf_markmode_new'
+def U_refine(name, repl, monitor=False, buf=2):
+    return Unit('refine_' + name, 'proto_shim.cpp', defines=['WENCRY_VERIF_BUF_SZ=%d' % buf], clang_extra=['-fno-exceptions', '-fno-inline'],
+                extra_srcs=PROTO_SRCS, ir2c_args=(['--monitor'] if monitor else []) + list(repl) + PROTO_STR + ['--roots', REFINE_ROOTS])
+REFINE_ENVS = ['env_heap.c', 'env_cxx.c', 'env_io.c']
+
+def refinement_obligations(r, tier, prefix='refine-'):
+    """L1/L2: the real synchronisation code equals harness/model_proto.h (shared by C03, C04, C14)"""
+    T = 300
+    acc = ['IR2C_ACCESS(p,n,w)=rs_access((u8*)(p),(u64)(n),(w))']
+    ul = U_refine('leaf', [], monitor=True)
+    names = {1: 'set_update', 2: 'set_ready', 3: 'wait_ready', 4: 'wait_update', 5: 'cmpstate-haslive', 6: 'get_entry'}
+    for leaf in range(1, 7):
+        r.add(Ob('%sL1-%s' % (prefix, names[leaf]), 'h_refine.c', [ul], defines=['H_LEAF', 'LEAF=%d' % leaf] + acc, unwind=12, timeout=T, envs=REFINE_ENVS, replay='none',
+                 note='arbitrary start state; every wake-up may find an arbitrary state'))
+    sk = {1: ('require_buffer_entry', L_CMP + L_GET + L_SETUPD + L_WAITRDY), 2: ('multiruncrypt_file', L_REQ),
+          3: ('buffer_update', L_CMP + L_LOAD + L_SETRDY), 4: ('turn_iter', L_HASLIVE + L_CMP), 5: ('run_buffer', L_WAITUPD + L_BUFUPD + L_TURNITER)}
+    for k, (nm, repl) in sk.items():
+        for th in ((2, 3) if tier == 'quick' else (1, 2, 3, 4)):
+            r.add(Ob('%sL2-%s-T%d' % (prefix, nm, th), 'h_refine.c', [U_refine('skel%d' % k, repl)], defines=['H_SKEL', 'SKEL=%d' % k, 'THREADS=%d' % th], unwind=40, timeout=T,
+                     envs=REFINE_ENVS, replay='none', cbmc_extra=FS, note='arbitrary outcomes of every leaf call; arbitrary turn / over / id'))
